@@ -143,4 +143,16 @@ TEXTS = {
   "note": "Not decided: that the filtered image links, is minimal and idempotent; map-entry/Any reachability; correctness of the closure's mode escalation. Determinism of the closure loops is decided under C02.",
   "technique": "origin classification of map keys + writer/reader belief contradiction + table agreement with generated struct tags",
  },
+ "C01": {
+  "text": "Decides structural necessary conditions of closure, order and flags: R-POSTORDER on every self-recursive seen-set walk of bufimage (seen test and mark dominate the recursion; "
+          "the current file is emitted after the loop over its imports and nothing recurses afterwards); the DFS input is the result of checkAndSortFiles, which appends only "
+          "inside a range over the path slice; isImport is the negated comma-ok of a lookup in a set filled with Path() of the sorted targets; newImage errors on a duplicate path "
+          "and on a second commit of one module (check-then-insert); the built-in WKT copy is consulted only after GetFile failed and past the errors.Is(err, fs.ErrNotExist) gate; "
+          "lockset for the accessor handler's maps; compiler errors are converted with the external-path resolver and buildResult.Err is returned before Files is used; the "
+          "path/exclude-path arm of the target decision, evaluated three-valued over all consistent assignments of (targets empty, excludes empty, in targets, in excludes), equals "
+          "(Tempty ∨ inT) ∧ ¬(¬Eempty ∧ inE) behind the !IsTarget early return.",
+  "note": "Not decided: that descriptors, source info, unused-import indexes and syntax markers equal what the compiler produces (delegated to protocompile; value-level); the proto-file-reference "
+          "targeting branch; agreement of module-level and image-level path filtering.",
+  "technique": "CFG dominance/reachability shape rules + SSA value identity + lockset + three-valued evaluation of a decision table",
+ },
 }
